@@ -155,7 +155,7 @@ func c12ReadBack(r *eng.Run, compressed, msg []byte, what string) {
 	if byteReader {
 		rd = &byteSrc{src}
 	}
-	fr := wsflate.NewReader(rd, flateDtor)
+	fr := wsflate.NewReader(rd, drawDtor(r))
 	buf := make([]byte, drawBuf(r))
 	var got []byte
 	for {
@@ -208,7 +208,7 @@ func c12Reader(r *eng.Run) {
 	// One Reader for consecutive messages (Reset between them), as a
 	// connection handler would use it.
 	if r.T.Bool(sim.LHist) {
-		fr := wsflate.NewReader(nil, flateDtor)
+		fr := wsflate.NewReader(nil, drawDtor(r))
 		for i := 0; i < 2+r.T.Int(sim.LHist, 2); i++ {
 			m := drawFlateMsg(r)
 			if len(m) > 3000 {
